@@ -161,5 +161,8 @@ DAGS["two_pulls_parallel"] = T(["A", "B", "P", "PQ", "C"], [("A", "P"), ("B", "P
 DAGS["a_dpull_b_c"] = T(["A", "B", "C"], [("A", "B", ["dpull1"]), ("B", "C")], order=[2, 1, 0])
 # two links with their own delay-to-pull adapter into one consumer (the adapters' pull histories are per link)
 DAGS["two_dpull_inputs"] = T(["A", "B", "C"], [("A", "C", ["dpull1"]), ("B", "C", ["dpull1"])], order=[2, 0, 1])
+# rings resolved by a delay-to-pull adapter (delay = n steps of the pulling component + extra)
+RINGS_OK["ring2_dpull3"] = T([NP("A"), "B"], [("A", "B"), ("B", "A", ["dpull3"])])
+RINGS_OK["ring2_dpull2_pulls_at_connect"] = T(["A", NP("B")], [("A", "B"), ("B", "A", ["dpull2"])])
 # ring through a pull-based component with the (sufficient) delay directly downstream of it
 RINGS_OK["ring2_pull_delay_after"] = T([NP("A"), "P", "B"], [("A", "P"), ("P", "B", ["dfix"]), ("B", "A")])
